@@ -52,7 +52,18 @@ const (
 	stDone   = 3
 
 	maxSyncYields = 400
+	// in "sync-only" cases (syncMode 1) tasks switch at every
+	// synchronisation operation and nowhere else
+	maxSyncYieldsSyncOnly = 6000
 )
+
+// syncMode is drawn once per case: 0 = a task switch before one in three
+// synchronisation operations plus step-counter switches (the default);
+// 1 = "sync-only": a switch before every synchronisation operation (atomic,
+// lock, Once, channel operation) and none anywhere else, which drives every
+// task up to its next synchronisation operation before any task passes one -
+// the schedule that semaphore, lock-order and check-then-act windows need.
+var syncMode int
 
 type pipe struct{ r, w int }
 
@@ -237,6 +248,10 @@ func YieldPoint(site string) {
 		return
 	}
 	lockSpins = 0
+	if syncMode == 1 && site == "tick" {
+		simhook.Next = ^uint64(0)
+		return
+	}
 	switchTo(pickNext(-1), site)
 	simhook.Next = simhook.Steps + nextGap()
 }
@@ -273,7 +288,17 @@ func blocked() {
 //
 //go:norace
 func syncPoint() {
-	if tp == nil || cur < 0 || syncYields >= maxSyncYields {
+	if tp == nil || cur < 0 {
+		return
+	}
+	if syncMode == 1 {
+		if syncYields < maxSyncYieldsSyncOnly {
+			syncYields++
+			switchTo(pickNext(-1), "before-sync")
+		}
+		return
+	}
+	if syncYields >= maxSyncYields {
 		return
 	}
 	if tp.Draw(3) == 0 {
@@ -372,6 +397,8 @@ type Stats struct {
 	BlockedYields int
 	ChanBlocks    int
 	Spawned       int
+	SyncOnly      bool // the case ran in "sync-only" mode
+	SyncYields    int  // task switches placed before a synchronisation operation
 	Overlaps      map[[2]int]int
 	TraceHash     uint64
 	TraceShort    []Switch
@@ -449,6 +476,10 @@ func setup(t *tape.Tape, n int, maxSwitches int) {
 	switches, blockedYields, syncYields, lockSpins, spawned, chanBlocks = 0, 0, 0, 0, 0, 0
 	maxSw = maxSwitches
 	cur = -1 // the driver holds the baton
+	syncMode = 0
+	if t.Chance(1, 5) {
+		syncMode = 1
+	}
 	simhook.ResetVirtual()
 }
 
@@ -490,7 +521,7 @@ func drive() {
 
 //go:norace
 func teardown() Stats {
-	st := Stats{LeftBlocked: leftBlocked, Switches: switches, Overlaps: map[[2]int]int{}, BlockedYields: blockedYields, ChanBlocks: chanBlocks, Spawned: spawned}
+	st := Stats{LeftBlocked: leftBlocked, Switches: switches, Overlaps: map[[2]int]int{}, BlockedYields: blockedYields, ChanBlocks: chanBlocks, Spawned: spawned, SyncOnly: syncMode == 1, SyncYields: syncYields}
 	for a := range overlap {
 		for b := range overlap[a] {
 			if overlap[a][b] > 0 {
